@@ -548,6 +548,11 @@ func ExtrasMismatch(d *vfkit.Decoded, qname vfkit.Name) string {
 // DoStreamed sends a POST whose body reaches the server in two parts with a pause in between (no Content-Length), so
 // that the body-read phases of requests multiplexed on one HTTP/2 connection overlap.
 func (c *DoHClient) DoStreamed(q []byte, cut int, pause time.Duration) (*Resp, error) {
+	return c.DoStreamedHdr(q, cut, pause, nil)
+}
+
+// DoStreamedHdr is DoStreamed with extra request headers.
+func (c *DoHClient) DoStreamedHdr(q []byte, cut int, pause time.Duration, hdr map[string]string) (*Resp, error) {
 	pr, pw := io.Pipe()
 	go func() {
 		if cut > len(q) {
@@ -565,6 +570,9 @@ func (c *DoHClient) DoStreamed(q []byte, cut int, pause time.Duration) (*Resp, e
 		return nil, err
 	}
 	req.Header.Set("Content-Type", "application/dns-message")
+	for k, v := range hdr {
+		req.Header.Set(k, v)
+	}
 	resp, err := c.hc.Do(req)
 	if err != nil {
 		return nil, err
